@@ -3,6 +3,7 @@ package main
 import (
 	"fmt"
 	"go/constant"
+	"go/token"
 	"sort"
 	"strings"
 
@@ -70,10 +71,31 @@ func seqOperands(l *loop) []ssa.Value {
 		}
 		return false
 	}
+	// reloads of the same field of the same base (x.items read in two branches) are one sequence
+	canon := func(v ssa.Value) string {
+		if ld, ok := v.(*ssa.UnOp); ok && ld.Op == token.MUL {
+			if fa, ok := ld.X.(*ssa.FieldAddr); ok {
+				return fmt.Sprintf("%s.%d", fa.X.Name(), fa.Field)
+			}
+		}
+		return ""
+	}
+	seenCanon := map[string]bool{}
+	var blocks []*ssa.BasicBlock
 	for b := range l.body {
+		blocks = append(blocks, b)
+	}
+	sort.Slice(blocks, func(i, j int) bool { return blocks[i].Index < blocks[j].Index })
+	for _, b := range blocks {
 		for _, ins := range b.Instrs {
 			if ia, ok := ins.(*ssa.IndexAddr); ok && isIdx(ia.Index) && !seen[ia.X] {
 				seen[ia.X] = true
+				if ck := canon(ia.X); ck != "" {
+					if seenCanon[ck] {
+						continue
+					}
+					seenCanon[ck] = true
+				}
 				out = append(out, ia.X)
 			}
 		}
